@@ -38,7 +38,7 @@ var c12Starts = []string{"http://h/", "http://h/?a=1&b=2", "http://h/p?a=1%2B1&a
 
 func (m c12) Run(ctx *core.Ctx) {
 	r := ctx.Rng
-	n := split(tierN(ctx.Tier, 600_000, 30_000_000), ctx.Shard, ctx.NShards)
+	n := split(tierN(ctx.Tier, 600_000, 20_000_000), ctx.Shard, ctx.NShards)
 	for i := int64(0); i < n; i++ {
 		start := gen.Pick(r, c12Starts)
 		if r.IntN(4) == 0 {
